@@ -170,6 +170,11 @@ def run(prog: Program, rep: Report, tier: str) -> None:
     # no draw cached at construction
     cached = [n for n in walk_no_nested(init.node) if isinstance(n, ast.Call) and isinstance(n.func, ast.Attribute) and n.func.attr in ("normal", "standard_normal", "random")]
     rep.check("R11.3", init.qual, "draws at construction time", not cached, what_bad="random numbers drawn once in __init__ would be reused every step", what_ok="none", loc=init.loc())
+    from ..share import share
+
+    share(prog, rep, "C18", ("R18.6",), "R11.5", "a version-1 configuration hands the diffusion coefficients to the tracker keys they belong to", 1, only=lambda o: "diffusion" in o.construct.lower() or "numerics" in o.construct.lower())
+    share(prog, rep, "C17", ("R17.1",), "R11.6", "the grid metric used to scale the random step is read at the particle's own cell", 2, only=lambda o: "Grid.metric" in o.func)
+
 
 
 from ..selftest import Mut  # noqa: E402
